@@ -1330,8 +1330,10 @@ def measure_terms(n, T, qs, sample, oracle):
     tt, q, o, s = ctableau(T, n), cnats(qs), cbools(oracle), cbools(sample)
     def t(rs, det):
         return f"match measure {rs} {det} {n} {tt} {q} {o} with Some (s, _) => lbeq s {s} | None => false end"
+    inv = (f"tableau_ok {n} {tt} && match measure rowsum_ag determined_spec {n} {tt} {q} {o} with "
+           f"Some (_, T') => tableau_ok {n} T' | None => false end")
     return [t("rowsum_packed", "determined_real"), t("rowsum_ag", "determined_spec"),
-            t("rowsum_ag", "determined_real"), t("rowsum_packed", "determined_spec")]
+            t("rowsum_ag", "determined_real"), t("rowsum_packed", "determined_spec"), inv]
 
 
 def sec_circuits(run, rng):
@@ -1428,11 +1430,12 @@ def sec_circuits(run, rng):
             run.find("measure:compile", "measurement correspondence file does not compile", {"log": out[-800:]}, concrete=False)
             continue
         mres.update(r_)
-    n_real = n_spec = n_neither = n_zero = 0
+    n_real = n_spec = n_neither = n_zero = n_inv = 0
     for (ci, lab, n, descs, qs, sample, oracle, p) in metas:
         if f"m{ci}_0" not in mres:
             continue
         rr_, ss_, sr_, rs_ = (mres[f"m{ci}_{k}"] for k in range(4))
+        n_inv += mres[f"m{ci}_4"]
         run.case(["measure", n, descs, qs, sample], nontrivial=len(oracle) < len(qs))
         n_real += rr_
         n_spec += ss_
@@ -1448,6 +1451,10 @@ def sec_circuits(run, rng):
             report(run, key, f"sampled outcome {sample} of qubits {qs} has Born probability 0 in the state-vector result "
                    f"(n={n}, random draws {oracle}); mechanism: {mech}",
                    {"kind": "measure", "n": n, "descs": descs, "qubits": qs, "forced": oracle, "sample": sample})
+    run.oblige(f"test:commutation relations (tableau_ok) hold for every final tableau of the backend and after the reference measurement "
+               f"M_spec ({len(metas)} cases; the theorem tableau_inv_rules covers the gate rules only)", n_inv == len(metas), "test")
+    if n_inv != len(metas):
+        report(run, "tableau_inv:measure", "tableau_ok fails on a real final tableau or after M_spec", {}, concrete=False)
     run.notes["measurement"] = {"cases": len(metas), "engine == model of the engine as written": n_real,
                                 "engine == Aaronson-Gottesman reference": n_spec, "neither": n_neither, "born_probability_zero": n_zero}
     if n_real == len(metas):
